@@ -277,8 +277,12 @@ def rule_residual(facts):
             g = False
             if sc[0] == "bin" and sc[1] in ("Lt", "Le") and E.is_c(E.strip_casts(sc[3])) and E.strip_casts(sc[3])[1] <= 2 ** 32 - 1:
                 lhs = E.strip_casts(sc[2])
+                parts = None
                 if lhs[0] == "bin" and lhs[1] == "Mul":
                     parts = [E.strip_casts(lhs[2]), E.strip_casts(lhs[3])]
+                elif lhs[0] == "call" and re.search(r"::(saturating_mul|widening_mul)$", lhs[1]) and len(lhs[2]) == 2:
+                    parts = [E.strip_casts(lhs[2][0]), E.strip_casts(lhs[2][1])]
+                if parts is not None:
                     mx = [p for p in parts if p[0] == "call" and re.search(r"find_max|reduce_max|simd_map_and_reduce", p[1])
                           and p[2] and p[2][0] == src]
                     g = bool(mx)
